@@ -41,7 +41,8 @@ var kinds = []Kind{
 		// skipped: the registers used by a CP holding this fragment have a gap, so the first free register (r2)
 		// is followed by a used one (r3) and temporaries cannot simply be numbered upwards from the first free one
 		Name: "scr", ResIn: []string{"r1"}, ResOut: []string{"r0"},
-		Body: []string{"cpy r3, r1", "add r3, r1", "cpy r0, r3", "inc r0"},
+		// (the jump to its own label makes the fragment carry a LABEL: two instances on one CP need distinct copies)
+		Body: []string{"cpy r3, r1", "add r3, r1", "j scrl", "scrl:", "cpy r0, r3", "inc r0"},
 		Eval: func(in []uint8) []uint8 { return []uint8{2*in[0] + 1} },
 	},
 	{ // constant generator: NO input, one output (5) in r0 — placed first on a CP it is the first code of the loop
